@@ -11,15 +11,15 @@ Lemma process_internal_r_off perm fs d n v : process_internal_r false perm fs d 
 Proof. reflexivity. Qed.
 
 Lemma process_apks_r_off perm fs nonce apks : forall d,
-  process_apks_r false false perm fs nonce apks d = process_apks perm fs nonce apks d.
+  process_apks_r false false perm fs nonce apks d = process_apks_u perm fs nonce apks d.
 Proof.
-  induction apks as [|a apks IH]; intro d; [reflexivity|]. cbn [process_apks_r process_apks rbind].
+  induction apks as [|a apks IH]; intro d; [reflexivity|]. cbn [process_apks_r process_apks_u rbind].
   rewrite process_internal_r_off. cbn [with_id apk_package p_id p_name p_version p_sums].
   destruct (process_internal _ _ _ _ _); cbn [rbind]; try reflexivity. apply IH.
 Qed.
 
-Lemma repair_off perm g : generate_r false false perm g = generate perm g.
-Proof. unfold generate_r, generate. destruct (g_layers g); [reflexivity|]. rewrite process_apks_r_off. reflexivity. Qed.
+Lemma repair_off perm g : generate_r false false perm g = generate_u perm g.
+Proof. unfold generate_r, generate_u. destruct (g_layers g); [reflexivity|]. rewrite process_apks_r_off. reflexivity. Qed.
 
 (* ---- uniqueness (the final de-duplication is unchanged) ---------------------------------- *)
 Lemma generate_r_inv f1 f3 perm g d : generate_r f1 f3 perm g = Ok d ->
@@ -95,7 +95,7 @@ Qed.
 Lemma pick_id_ok ps name version base :
   exists c sfx, pick_id ps name version base = Ok c /\ c = base +++ sfx /\ taken ps name version c = false.
 Proof.
-  unfold pick_id. destruct (taken ps name version base) eqn:T.
+  unfold pick_id, pick_id_from. destruct (taken ps name version base) eqn:T.
   - destruct (pick_from_ok ps name version base (S (List.length ps)) 2) as (c & k & A & B & C).
     { rewrite <- (map_length p_id ps). apply free_candidate. }
     exists c, ("-" +++ dec (2 + k)). split; [exact A|]. split; [exact B | exact C].
@@ -104,7 +104,7 @@ Qed.
 
 Lemma pick_id_free ps name version base : ~ In base (List.map p_id ps) -> pick_id ps name version base = Ok base.
 Proof.
-  intro H. unfold pick_id. destruct (taken ps name version base) eqn:T; [|reflexivity].
+  intro H. unfold pick_id, pick_id_from. destruct (taken ps name version base) eqn:T; [|reflexivity].
   exfalso. apply H, (taken_in _ _ _ _ T).
 Qed.
 
@@ -427,9 +427,9 @@ Proof.
 Qed.
 
 Lemma repair_conservative f3 perm g : NoEmbedded g -> NoDup (List.map p_id (own_elements g)) ->
-  generate_r true f3 perm g = generate perm g.
+  generate_r true f3 perm g = generate_u perm g.
 Proof.
-  intros NE ND. unfold generate_r, generate. destruct (g_layers g); [reflexivity|].
+  intros NE ND. unfold generate_r, generate_u. destruct (g_layers g); [reflexivity|].
   rewrite process_apks_plain by exact NE. rewrite process_apks_r_conservative; [reflexivity | exact NE|].
   unfold own_elements in ND. rewrite map_app, map_map in ND. exact ND.
 Qed.
